@@ -157,6 +157,11 @@ DFS_THOROUGH = [
     cfg_line(1, [0], [[0], [0], [0]]),
     cfg_line(2, [], [[0, 1], [1, 0]]),
     cfg_line(2, [0], [[0], [1]], sig=[(1, "l")]),
+    cfg_line(2, [0], [[0], [1], [0]]),
+    cfg_line(2, [0, 1], [[0, 1], [1, 0]]),
+    cfg_line(3, [1], [[0, 1], [2, 1]]),
+    cfg_line(1, [0], [[0, 0], [0, 0]]),
+    cfg_line(2, [1], [[0], [1], [1]], sig=[(2, "l")]),
 ]
 PROBE_FREE_IN_CB = cfg_line(1, [0], [[0]], free="cb")
 
